@@ -166,7 +166,7 @@ def build(variant='asan', hooks=True, quiet=False):
         lockf.close()
 
 
-def _prune(keep, maxdirs=6):
+def _prune(keep, maxdirs=16):
     """Keep the cache small: drop the oldest tree-hash directories."""
     try:
         ds = [(os.path.getmtime(os.path.join(CACHE, d)), d) for d in os.listdir(CACHE) if d != keep]
